@@ -22,7 +22,7 @@ type vfMixedPayload struct {
 	V       string   `xml:"v,attr,omitempty"`
 }
 
-func (p *vfMixedPayload) Namespace() string        { return p.XMLName.Space }
+func (p *vfMixedPayload) Namespace() string         { return p.XMLName.Space }
 func (p *vfMixedPayload) GetSet() *stanza.ResultSet { return nil }
 
 func init() {
